@@ -49,7 +49,7 @@ func init() {
 		ID:        "C04",
 		Level:     "model_checking",
 		Technique: "stateless model checking of the real pipeline (controlled scheduler over instrumented code, fake Postgres, two simulated nodes): all step-granular interleavings (plus preemption-bounded finer ones) of one thread per (source, integration) pair, one environment thread per source (growth + reorg) and a restart driver; oracle = frame condition on every commit diff (only rows and positions stamped with the acting pair may change), stamp of every inserted row, and per-pair projection of the pair's own canonical chain at quiescence",
-		Rule: "jobs = every subset of size 2 and 3 of {P1=(srcA,ig1), P2=(srcA,ig2), P3=(srcB,ig1)} (one shared table; srcA and srcB are different nodes with different chains; every pair has indexed block 1 before the explored phase) x declaration variant {same event, different events, same event with disjoint log_addr filters} x restart {none, by P1 before its second step (thorough: by every pair, two-pair subsets)} x K=2 steps per pair (thorough also 3) with one reorg (longer replacement) per source; " +
+		Rule: "jobs = every subset of size 2 and 3 of {P1=(srcA,ig1), P2=(srcA,ig2), P3=(srcB,ig1)} (one shared table; srcA and srcB are different nodes with different chains; every pair has indexed block 1 before the explored phase) x declaration variant {same event, different events, same event with disjoint log_addr filters} x restart {none, by P1 before its second step in the subset {P1,P2} (thorough: also by P2 there, and by P3 in {P1,P3} and {P2,P3})} x K=2 steps per pair (thorough also 3) with one reorg (longer replacement) per source; " +
 			"per job every schedule with free switches at the step boundaries of the first source's pairs and <= 1 preemption (thorough: 2 on the two-pair jobs without restart; three-pair jobs: quick 0, thorough 1); preemptive switches to a pair/environment thread only at RPC exchanges with its own node. Non-trivial = rows inserted by two different pairs or a reorg deletion committed; distinct = distinct (job, choice sequence).",
 		Assumptions: []string{
 			"fake Postgres (h/simpg) interprets the SQL shovel sends; simulated nodes (h/simeth) answer like well-behaved geth nodes",
@@ -79,16 +79,31 @@ func c04Jobs(thorough bool) []c04Job {
 				jobs = append(jobs, c04Job{Pairs: ps, Var: v, K: 3, Batch: 1})
 			}
 			for i := 0; i < len(ps); i++ {
-				if !thorough && (i > 0 || v == "event" || ps == "123" || ps == "23" || (ps == "13" && v == "addr")) {
-					continue // quick: P1 restarts, on the two-pair subsets containing P1
+				if !thorough && (i > 0 || v == "event" || ps != "12") {
+					continue // quick: P1 restarts next to P2 (same source client)
 				}
-				if thorough && (len(ps) > 2 || v == "event") {
-					continue // thorough: every pair of every two-pair subset restarts
+				if thorough && (len(ps) > 2 || v == "event" || (ps != "12" && (v != "same" || ps[i] != '3'))) {
+					continue // thorough: both pairs of {P1,P2} restart; next to P3 (other source) P3 restarts
 				}
 				jobs = append(jobs, c04Job{Pairs: ps, Var: v, Restart: "P" + ps[i:i+1], K: 2, Batch: 1})
 			}
 		}
 	}
+	// heavy jobs first: the round-robin shards then get at most one of them each
+	weight := func(j c04Job) int {
+		switch {
+		case len(j.Pairs) > 2 && thorough, j.Restart != "" && j.Pairs != "12":
+			return 5
+		case j.Deep:
+			return 3
+		case j.K > 2:
+			return 2
+		case j.Restart != "":
+			return 1
+		}
+		return 0
+	}
+	sort.SliceStable(jobs, func(a, b int) bool { return weight(jobs[a]) > weight(jobs[b]) })
 	return jobs
 }
 
@@ -318,7 +333,7 @@ func c04Exec(j c04Job, p *c04Prep, ch vrt.Chooser, states *vrt.StateSet, trace b
 					if what == "position" {
 						num, _ = numOf(chg.Row, "num")
 					}
-					vio("frame", fmt.Sprintf("frame:%s-of-%s-pair-%sd:%s", what, other, chg.Op, tag),
+					vio("frame", fmt.Sprintf("frame:%s-of-%s-pair-%s:%s", what, other, map[string]string{"insert": "inserted", "delete": "deleted"}[chg.Op], tag),
 						fmt.Sprintf("a commit of thread %s working for pair (%s, %s) %ss a %s stamped (%s, %s) (block %d, row id %d, table %s)", c.Thread, pr.src, pr.ig, chg.Op, what, rs, ri, num, chg.Row.ID, chg.Table))
 					return
 				}
@@ -439,7 +454,7 @@ func c04Exec(j c04Job, p *c04Prep, ch vrt.Chooser, states *vrt.StateSet, trace b
 					case "error":
 						res.stepErrs[errClass(err)]++
 					}
-					if out != "ok" && envLeft[pr.host] > 0 && s < j.K-1 {
+					if out != "ok" && envLeft[pr.host] > 0 && s < j.K-1 && !(scriptB && pr.host == "node2") {
 						// polling an unchanged source again would repeat the same step: wait for the source's reorg
 						host := pr.host
 						w.V.Point("wait-source", false, func() bool { return envLeft[host] == 0 })
